@@ -202,6 +202,22 @@ def check():
                            any(t == ("sym", "definition") or t == ("addr", ("sym", "definition")) for a in fr[0][2] for t in ms.subterms(a)))
         structural("rename_variable: edits the binder's identifier and every reference", seen_decl and seen_ref)
 
+    # ... and what was collected is what is answered: no rename handler (nor a closure of one) takes an edit out again or
+    # reorders and merges them (dedup / retain / truncate / drain / remove / pop / clear on a Vec; remove / retain on the map)
+    import mirparse as mp
+    shr = []
+    for fm in ML.funcs:
+        if not re.search(r"(^|::)(rename|rename_variable|rename_qualifier)(::\{closure#\d+\})*$", fm.name):
+            continue
+        for bb in fm.blocks.values():
+            if bb.cleanup or not bb.term:
+                continue
+            pt = mp.stmts_of(bb)[1]
+            if pt[0] == "call" and re.search(r"(Vec::<.*>|HashMap::<.*>|\[.*\])::(dedup|dedup_by|dedup_by_key|retain|retain_mut|truncate|drain|remove|swap_remove|pop|clear|split_off|extract_if)(::<.*>)?$", str(pt[2])):
+                shr.append("%s: %s" % (fm.short, str(pt[2]).split("::")[-1][:20]))
+    structural("rename: the edit lists only grow (no handler removes, merges or truncates collected edits)", not shr,
+               "rename: collected edits are post-processed (%s)" % "; ".join(sorted(set(shr))[:3]))
+
     # rename collects its edit set through find_references: every edit range is a location that function
     # records (the identifier of a variable bound to the definition), decided by definition equality
     import props.c17 as c17
@@ -242,6 +258,9 @@ def replay(path):
     if "h_unicode" in os.path.basename(os.path.normpath(path)):
         import kanirun
         return kanirun.replay_saved(path)
+    if "native" in os.path.basename(os.path.normpath(path)):
+        import props.c16 as c16
+        return c16.replay(path)
     import lspcorpus
     probs, detail = lspcorpus.run(new_replay_dir("C18", "lsp-corpus"), want=("rename",))
     print(detail)
